@@ -186,8 +186,9 @@ def main(argv=None):
         "wall_s": round(wall, 3),
         "violations": len(unknown),
     }
-    os.makedirs(os.path.join(VERIF, "evidence"), exist_ok=True)
-    evpath = os.path.join(VERIF, "evidence", f"{prop_id}.json")
+    evdir = os.environ.get("VERIF_EVIDENCE_DIR") or os.path.join(VERIF, "evidence")
+    os.makedirs(evdir, exist_ok=True)
+    evpath = os.path.join(evdir, f"{prop_id}.json")
     ev = explore.jsonable(ev)
     try:
         import jsonschema
